@@ -360,13 +360,18 @@ func EdRelatedPoint(t *rapid.T, e *inst.Edwards, s FieldSpec, p EPt, label strin
 
 // JacRep builds a Jacobian representative of p: (x z^2, y z^3, z) with z drawn from the field
 // lattice (non-zero); for infinity either the representative the library's own FromAffine returns
-// or (t^2, t^3, 0). The class is "Z=1", "Z!=1", "inf_lib" or "inf_t".
+// or (t^2, t^3, 0), or the zero value (0,0,0). The class is "Z=1", "Z!=1", "inf_lib", "inf_zero" or "inf_t".
 func JacRep(t *rapid.T, g *inst.Group, s FieldSpec, p ref.Pt, label string) (interface{}, string) {
 	if p.Inf {
-		if rapid.Bool().Draw(t, label+"lib") {
+		switch rapid.IntRange(0, 2).Draw(t, label+"lib") {
+		case 0:
 			j := g.NewJac()
 			reg.M(j, "FromAffine", g.FromRef(p))
 			return j, "inf_lib"
+		case 1:
+			// the Go zero value (0,0,0): what `var acc G1Jac` holds and what DoubleMixed of the
+			// affine identity returns; Y^2 = X^3 holds, so it is inside the asserted domain
+			return g.NewJac(), "inf_zero"
 		}
 		z, _ := NonZeroV(t, g.E.F, s, label)
 		return g.JacFromRef(p, z), "inf_t"
